@@ -191,6 +191,7 @@ ROUND6 = {
 ROUND7 = {
  "C02": "SQLite table with two foreign keys without constraint names (positional labels), renumbered when the declaration order is permuted; PostgreSQL serial column as inspected (with its sequence name), integer <-> serial retypes.",
  "C05": "Desired state also as an HCL document (string defaults arrive unquoted); the expected fill of a NULL under a new NOT NULL column is the model's default, not the migrated table's; enumerated sub-check null-becomes-default (column type x default shape x source of the desired state).",
+ "C06": "MemDir.CopyFiles into a directory that already holds a file, and with the files handed over in reverse order.",
  "C08": "Runs of BEGIN ATOMIC words in the growth sub-check (all four option sets), run lengths grown two words at a time.",
  "C11": "The execution order stated by the flag, by the env of a project file, or by the flag against another order in the env (enumerated for an out-of-order file, sampled in the histories).",
  "C12": "CLI tier: the file added below an applied one, first attempt with --exec-order non-linear (its partial revision is not the newest); next run non-linear (same expectations) or linear with a newer pending file (refused, nothing executed).",
